@@ -14,6 +14,9 @@ inductive Step (R : Type) where
   | flipSignature (i : Nat)
   | transpose (σ : List Nat) (i : Nat)
   | tensordot (i j : Nat) (inA inB : List Nat)
+  | trace (i : Nat) (in0 in1 : List Nat)
+  | addLeg (i : Nat) (axis : Nat) (sl : Int) (t : Charge)
+  | removeLeg (i : Nat) (axis : Nat)
 
 def getVal (vals : List (Tensor R)) (i : Nat) : Except Err (Tensor R) :=
   match vals[i]? with
@@ -30,6 +33,9 @@ def Step.run [Zero R] [Add R] [Mul R] [Neg R] [Conj R] (vals : List (Tensor R)) 
   | .flipSignature i => do let a ← getVal vals i; pure (YModel.flipSignature a)
   | .transpose σ i => do let a ← getVal vals i; YModel.transpose σ a
   | .tensordot i j inA inB => do let a ← getVal vals i; let b ← getVal vals j; YModel.tensordot a b inA inB
+  | .trace i in0 in1 => do let a ← getVal vals i; YModel.trace a in0 in1
+  | .addLeg i axis sl t => do let a ← getVal vals i; YModel.addLeg a axis sl t
+  | .removeLeg i axis => do let a ← getVal vals i; YModel.removeLeg a axis
 
 /-- run a program: every step appends its result to the list of values; the first rejected step aborts -/
 def runProg [Zero R] [Add R] [Mul R] [Neg R] [Conj R] (vals : List (Tensor R)) : List (Step R) → Except Err (List (Tensor R))
